@@ -37,6 +37,7 @@ def dispatch (line : String) : String :=
       | "thr" => handleThr args obs
       | "pan" => handlePan rest
       | "async" => handleAsync obs
+      | "selfuse" => handleSelfUse args obs
       | "cc" => handleCc args obs
       | "ccavx" => handleCcAvx args obs
       | "ccrust" => handleCcRust args obs
